@@ -333,6 +333,14 @@ func discSites() []Site {
 			Leaves: map[string]string{"exists[hash]": "seen"}},
 		{Name: "exploreKeepsJob", File: exl, Func: "Explore.ApplyConfig", Sel: "if:0:1", Params: "(jobListed : Bool)", Ret: "Bool",
 			Leaves: map[string]string{"types.FindString(v.job, jobs...)": "jobListed"}},
+		{Name: "getUnknown", File: exl, Func: "Explore.Get", Sel: "if:0:2", Params: "(known : Bool)", Ret: "Bool",
+			Leaves: map[string]string{"r == nil": "!known"}},
+		{Name: "getStarts", File: exl, Func: "Explore.Get", Sel: "if:1:2", Params: "(exploring : Bool)", Ret: "Bool",
+			Leaves: map[string]string{"r.exploring": "exploring"}},
+		{Name: "probeFailed", File: exl, Func: "Explore.Run", Sel: "if:1:3", Params: "(errNil : Bool)", Ret: "Bool",
+			Leaves: map[string]string{"err != nil": "!errNil"}},
+		{Name: "retryRequeues", File: exl, Func: "Explore.Run", Sel: "if:2:3", Params: "(listedId : Option Nat) (tarId : Nat)", Ret: "Bool",
+			Leaves: map[string]string{"e.targets[hash]": "listedId", "tar": "(some tarId)", "nil": "none"}},
 		{Name: "exploreKeepsEntry", File: exl, Func: "Explore.UpdateTargets", Sel: "if:0:1", Params: "(known : Bool)", Ret: "Bool",
 			Leaves: map[string]string{"e.targets[hash] != nil": "known"}},
 	}
